@@ -44,6 +44,9 @@ func NewSparseConstInt16Vector(indices []int, values []int16, n int) SparseConst
   if len(indices) != len(values) {
     panic("invalid number of indices")
   }
+  // do not reorder the caller's slices
+  indices = append([]int{}, indices...)
+  values  = append([]int16{}, values...)
   sort.Sort(sortIntConstInt16{indices, values})
   r := nilSparseConstInt16Vector(n)
   r.indices = indices[0:0]
